@@ -29,6 +29,13 @@ import logging
 
 logger = logging.getLogger(__name__)
 
+# Verification hook, off unless YLDPROLOG_VERIF=1: every Variable is recorded in a weak
+# set at construction so that an external checker can inspect variables that compiled
+# clauses create internally. Nothing in yldprolog reads it.
+import os as _os
+import weakref as _weakref
+_VERIF_VARIABLES = _weakref.WeakSet() if _os.environ.get('YLDPROLOG_VERIF') == '1' else None
+
 class YPException(Exception):
     '''Exception thrown by the engine.'''
     pass
@@ -83,6 +90,8 @@ class Variable(IUnifiable):
     a query."""
     def __init__(self):
         self._is_bound = False
+        if _VERIF_VARIABLES is not None:
+            _VERIF_VARIABLES.add(self)
     def get_value(self):
         """if the variable is bound, return the bound value, otherwise return the variable
         object itself. Will resolve the value recursively, also for variables that occur
